@@ -3,14 +3,14 @@ import os, subprocess, time, hashlib
 VERIF = os.path.dirname(os.path.dirname(os.path.abspath(__file__)))
 _cache = {}
 
-def dump(crate, features="scylla-verif"):
+def dump(crate, features="scylla-verif", cwd=None):
     """crate: directory name under /repo (scylla, scylla-cql, scylla-cql-core). Returns path of the MIR text."""
     key = (crate, features)
     if key in _cache:
         return _cache[key]
     out_dir = os.path.join(VERIF, ".cache", "mir")
     os.makedirs(out_dir, exist_ok=True)
-    out = os.path.join(out_dir, f"{crate}-{os.getpid()}.mir")
+    out = os.path.join(out_dir, f"{crate.replace('/', '_')}-{os.getpid()}.mir")
     env = dict(os.environ)
     env["CARGO_NET_OFFLINE"] = "true"
     env["CARGO_TARGET_DIR"] = os.path.join(VERIF, ".cache", "mir-target")
@@ -23,7 +23,7 @@ def dump(crate, features="scylla-verif"):
             "-A", "unexpected_cfgs"]
     t0 = time.time()
     with open(out, "w") as f:
-        p = subprocess.run(cmd, cwd=os.path.join("/repo", crate), env=env, stdout=f, stderr=subprocess.PIPE, text=True)
+        p = subprocess.run(cmd, cwd=cwd or os.path.join("/repo", crate), env=env, stdout=f, stderr=subprocess.PIPE, text=True)
     if p.returncode != 0 or os.path.getsize(out) < 1000:
         raise RuntimeError(f"MIR dump of {crate} failed: {p.stderr[-1500:]}")
     _cache[key] = out
